@@ -59,6 +59,14 @@ pub fn passes(tier: &str) -> Vec<Pass> {
         let spec = FilterSpec { assign: [true, false, false], kind };
         v.push(mk(format!("narrow/kind{kind}/leveled-l0=2"), Cfg { nks: 1, ..l2.clone() }, alpha_narrow(false), spec, if q { 5 } else { 7 }, 4, if q { 4.0 } else { 120.0 }));
     }
+    // journal rotation in play: a sealed journal is replayed on reopen next to filtered tables / evicted while a keyspace
+    // the filter emptied (or that was never flushed) still needs it
+    {
+        let mut a = alpha();
+        a.jrot = true;
+        v.push(mkp("sealed-journal replay over filtered tables".into(), d.clone(), a.clone(), FilterSpec { assign: [true, false, false], kind: 3 }, "sealed_journal_x_half_flushed", if q { 3 } else { 4 }, 2, if q { 4.0 } else { 150.0 }));
+        v.push(mkp("journal eviction with an unflushed kept item".into(), d.clone(), a, FilterSpec { assign: [true, false, false], kind: 1 }, "x_unflushed_y_rotated", if q { 3 } else { 4 }, 2, if q { 4.0 } else { 150.0 }));
+    }
     v.push(mk("narrow-big/blob/kind3".into(), Cfg { nks: 1, blob: true, ..d.clone() }, alpha_narrow(true), FilterSpec { assign: [true, false, false], kind: 3 }, if q { 4 } else { 6 }, 3, if q { 4.0 } else { 120.0 }));
     v
 }
